@@ -117,7 +117,7 @@ CHECKS = {
              "string up to a bound and every file of pool lines, checking duplicate-freedom, span bounds, lookup and "
              "write/parse identity as invariants of the model; every finished behaviour (input + predicted outcome) is "
              "replayed into the real aisle::parse/write/ingredients_info and the recorded executions are judged by TLC "
-             "(spec/Trace_Aisle.tla) with the same predicates (which error a file with several problems reports, its spans and the writer's layout are drift). Bounded-exhaustive over the format's alphabet, sampled beyond.",
+             "(spec/Trace_Aisle.tla) with the same predicates (which error a file with several problems reports, its spans and the writer's layout are drift); names that differ only in letter case sit in different categories, and the bindings' category_for is asked for every listed name (BindingsLookup). Bounded-exhaustive over the format's alphabet, sampled beyond.",
         design="6 (C11), 3.8", technique="TLA+ model (CookAisle) + TLC exhaustive generation + trace validation of recorded aisle::parse runs",
         note="Trusted: TLC, the JSON reader, the recorder's projection. Inputs beyond the bound are only sampled (seeded)."),
     "C12": dict(
@@ -140,7 +140,7 @@ CHECKS = {
              "and predicts severity, stage, class and the byte span of the construct; TLC judges that such a diagnostic "
              "exists and that its first label touches the span. Validity <=> output and no error, parse errors suppress "
              "output and analysis diagnostics, analysis errors keep the output: invariants of CookAnalysis and clauses "
-             "judged on every record. The parser itself is also specified as a parser (spec/CookParser.tla, a transcription of src/parser over the tokens of CookLexer; TLC enumerates every string up to a bound over ten kernel alphabets x extension sets, checks the design invariants and prints the predicted events; for whole documents TLC lexes and parses the recorded text itself) and TLC judges the real PullParser events against it (spec/Trace_Parser.tla): clauses SilentWhenSpecifiedSilent and DiagnosedAsSpecified (kind and a label touching the specified one) for every input of the kernels, not only the cataloged defects. Diagnostics are compared by severity, stage and labels; their classes (read off the message text) only as drift, and after an injected invalid construct only that construct's diagnostic and the validity rules are demanded - rewording, extra hints and other recovery are not alarms (18 stored benign changes, ./check selftest --part benign).",
+             "judged on every record. The parser itself is also specified as a parser (spec/CookParser.tla, a transcription of src/parser over the tokens of CookLexer; TLC enumerates every string up to a bound over ten kernel alphabets x extension sets, checks the design invariants and prints the predicted events; for whole documents TLC lexes and parses the recorded text itself) and TLC judges the real PullParser events against it (spec/Trace_Parser.tla): clauses SilentWhenSpecifiedSilent and DiagnosedAsSpecified (kind and a label touching the specified one, and at least as many diagnostics of a kind as the specification has classes of that kind) for every input of the kernels - the timer kernel under eight extension sets that switch single gates - not only the cataloged defects. Diagnostics are compared by severity, stage and labels; their classes (read off the message text) only as drift, and after an injected invalid construct only that construct's diagnostic and the validity rules are demanded - rewording, extra hints and other recovery are not alarms (37 stored benign changes, ./check selftest --part benign).",
         design="6 (C07)", technique="TLA+ defect-injecting generator + TLC exhaustive kernel/simulation + trace validation of diagnostics",
         note=DOC_NOTE + " Replay of the defect kernel is stratified per defect class at the quick tier."),
     "C13": dict(
@@ -161,7 +161,7 @@ CHECKS = {
              "front matter switching old-style metadata off) and folded through CookAnalysis!AMeta; TLC checks "
              "MetaScanAgrees on every line sequence up to a bound x {front matter} x {LF, CRLF} under all/no extensions and "
              "prints each document with the map both parses must return. The real parse / parse_metadata pairs for those "
-             "documents, the plain corpora and CookDoc walks under several extension subsets are judged by TLC "
+             "documents, the plain corpora (with front matters that are not read - YAML error, no mapping, a repeated key - in front of entry lines, and documents opening with a byte-order mark) and CookDoc walks under several extension subsets are judged by TLC "
              "(spec/Trace_Meta.tla): both have output => equal maps (order included); the predicted map is compared as drift.",
         design="6 (C14), 3.3", technique="TLA+ line-level model of both scanners + TLC exhaustive line sequences + trace validation of paired parses",
         note=DOC_NOTE),
